@@ -110,6 +110,10 @@ from . import queries as QQ
 
 
 def _gen_C14(rng, tier, seed):
+    if rng.random() < (0.0015 if tier == "quick" else 0.003):
+        # a store beyond 2^16 trie blocks (8 MiB): size-dependent read paths
+        return {"prop": "C14", "seed": seed, "obs_seed": rng.getrandbits(32), "ops": [], "config": {"backend": rng.choice(["sim", "mem"]), "default": "domain", "rules": [], "profile": "big-store"},
+                "big_store": {"pages": rng.choice([7400, 7500]), "stem_blocks": 10, "links": rng.choice([0, 50])}}
     g = Gen(rng, "C14", tier, backend=rng.choice(["sim", "sim", "mem"]))
     if g.nops > 40:
         g.nops = 40
